@@ -20,6 +20,7 @@ TraceNext ==
          [] ev.e = "resume" ->
               /\ Resume(ev) /\ ev.called = 0 /\ ev.result = last'.result
               /\ ev.conc = inflight' /\ ev.inb = (IF role = "server" THEN inflight' ELSE 0)
+         [] ev.e = "adv" -> Adv(ev)
          [] OTHER -> FALSE
 TraceSpec == TraceInit /\ [][TraceNext]_<<tvars, l>>
 TraceAccepted ==
